@@ -74,6 +74,17 @@ class Ctx:
                 module, cfg, r.violated, r.output[-3000:]))
         return r
 
+    def tlc_graph(self, module, cfg=None, **kw):
+        """run TLC with a state-graph dump, parse it, clean up"""
+        from graph import Graph
+        kw.setdefault("workers", 8)
+        r = self.tlc(module, cfg, dump=True, **kw)
+        try:
+            g = Graph.load(r.dump)
+        finally:
+            _tlc.cleanup(r)
+        return g
+
     # --- bookkeeping ----------------------------------------------------------------
     def case(self, key=None, nontrivial=True):
         self.evaluations += 1
